@@ -418,9 +418,57 @@ class Emit:
     def _is_glyph(e) -> bool:
         return isinstance(e, ast.Attribute) and isinstance(e.value, ast.Name) and e.value.id in ("box", "_box") and not e.attr.startswith("get_")
 
+    def _list_elements(self, name: str, st):
+        """elements of a local list of segments: one definition `[e..]` or `[e] if <count> else []` (an optional run of
+        <count> spaces), plus later `name.append(e)` calls that precede `st` - in order; None when not of this form"""
+        env = self.env
+        ds = [x for x in env.defs(name, env.nid(st)) if x[0] is not None]  # mutation (append) "definitions" carry no value
+        if len(ds) != 1:
+            return None
+        v, d = ds[0]
+        elems = []
+        if isinstance(v, ast.List):
+            elems = [("seg", e) for e in v.elts]
+        elif isinstance(v, ast.IfExp) and isinstance(v.body, ast.List) and len(v.body.elts) == 1 and isinstance(v.orelse, ast.List) and not v.orelse.elts and isinstance(v.body.elts[0], ast.Call):
+            cnt = self._space_count(v.body.elts[0])
+            if cnt is None or norm(cnt) != norm(v.test):
+                return None
+            elems = [("seg", v.body.elts[0])]  # width == count whether present or not (count == 0 when absent)
+        else:
+            return None
+        for c in walk_local(self.f.node):
+            if isinstance(c, ast.Call) and isinstance(c.func, ast.Attribute) and isinstance(c.func.value, ast.Name) and c.func.value.id == name:
+                if c.func.attr == "append" and len(c.args) == 1 and c.lineno <= st.lineno and c not in list(ast.walk(st)):
+                    elems.append(("seg", c.args[0]))
+                elif c.func.attr in ("extend", "insert", "pop", "remove", "clear", "sort", "reverse"):
+                    return None
+        return elems, d
+
     def yield_from(self, v, st):
         env = self.env
         nid = env.nid(st)
+        # yield from [line] * n   (whole lines repeated)
+        if isinstance(v, ast.BinOp) and isinstance(v.op, ast.Mult) and isinstance(v.left, ast.List) and len(v.left.elts) == 1:
+            w = self.elem_width(v.left.elts[0], nid)
+            if w is not None and isinstance(w, tuple):
+                if self.cur:
+                    self.problems.append((st.lineno, "whole lines emitted in the middle of a line"))
+                self.lines.append((_add(w[1], {}), f"yield from {short(v)}", st.lineno))
+                return
+        if isinstance(v, ast.Name):
+            le = self._list_elements(v.id, st)
+            if le is not None:
+                elems, d = le
+                for _k, e in elems:
+                    if isinstance(e, ast.Call) and norm(e.func).endswith(".line"):
+                        self.newline(f"yield from {v.id}", st.lineno)
+                        continue
+                    w = self.seg_width(e, d) if isinstance(e, ast.Call) else None
+                    if w is None:
+                        self.problems.append((st.lineno, f"cannot determine the width of element `{short(e)}` of `{v.id}`"))
+                        return
+                    self.add_str(w, st)
+                return
         if isinstance(v, ast.Name):
             # loop variable over a list of lines?
             loop = None
